@@ -635,6 +635,39 @@ fn selftest() -> (u64, u64) {
     (inj, det)
 }
 
+const BIG_CHUNKS: [usize; 7] = [7, 512, 4096, 65536, 100_000, 131_071, 1 << 20];
+
+/// A shape with a part of n points written twice through destinations that accept at most `chunk` bytes per
+/// call, against unrestricted destinations.
+pub fn big_verdicts(ty: Ty, n: usize, chunk: usize) -> Vec<(String, String)> {
+    let lib = crate::bridge::to_lib(&crate::structs::sized(ty, n));
+    let run = |chunk: usize| -> Result<(Vec<u8>, Vec<u8>), String> {
+        let env = WEnv::new(true);
+        if chunk > 0 {
+            env.shp.0.borrow_mut().logging = false;
+            env.shx.as_ref().unwrap().0.borrow_mut().logging = false;
+            chunk_env(&env, chunk as u64);
+        }
+        {
+            let mut w = ShapeWriter::with_shx(env.shp.clone(), env.shx.clone().unwrap());
+            crate::bridge::write_shape(&mut w, &lib).map_err(|e| crate::bridge::err_kind(&e))?;
+            crate::bridge::write_shape(&mut w, &lib).map_err(|e| crate::bridge::err_kind(&e))?;
+        }
+        Ok((env.shp.data(), env.shx.as_ref().unwrap().data()))
+    };
+    let reference = run(0);
+    match catch(|| run(chunk)) {
+        Ok(r) => {
+            if r != reference {
+                vec![(format!("{}:short-write:large-shape-differs", ty.name()), format!("destination accepting <= {} bytes per call: files differ from the unrestricted run ({:?} vs {:?} .shp bytes)", chunk, r.as_ref().map(|x| x.0.len()), reference.as_ref().map(|x| x.0.len())))]
+            } else {
+                vec![]
+            }
+        }
+        Err(p) => vec![(format!("{}:{}", ty.name(), p.sig()), p.msg)],
+    }
+}
+
 pub fn check(tier: Tier) -> i32 {
     let started = Instant::now();
     let types: Vec<Ty> = ALL13.to_vec();
@@ -658,35 +691,14 @@ pub fn check(tier: Tier) -> i32 {
     let mut big = Ctx::new();
     for ty in [Ty::PolylineZ, Ty::MultipointM, Ty::Polygon] {
         for n in [8193usize, 20000, 70001] {
-            let lib = crate::bridge::to_lib(&crate::structs::sized(ty, n));
-            let run = |chunk: usize| -> Result<(Vec<u8>, Vec<u8>), String> {
-                let env = WEnv::new(true);
-                if chunk > 0 {
-                    env.shp.0.borrow_mut().logging = false;
-                    env.shx.as_ref().unwrap().0.borrow_mut().logging = false;
-                    chunk_env(&env, chunk as u64);
-                }
-                {
-                    let mut w = ShapeWriter::with_shx(env.shp.clone(), env.shx.clone().unwrap());
-                    crate::bridge::write_shape(&mut w, &lib).map_err(|e| crate::bridge::err_kind(&e))?;
-                    crate::bridge::write_shape(&mut w, &lib).map_err(|e| crate::bridge::err_kind(&e))?;
-                }
-                Ok((env.shp.data(), env.shx.as_ref().unwrap().data()))
-            };
-            let reference = run(0);
-            for chunk in [7usize, 512, 4096, 65536, 100_000, 131_071, 1 << 20] {
+            for chunk in BIG_CHUNKS {
                 let cj = json!({"ty": ty.name(), "points_in_part": n, "chunk": chunk});
                 let mut hh = Fnv::new();
                 hh.str(&cj.to_string());
                 big.case_done(hh.finish(), true, 9);
                 big.lib_calls += 3;
-                match catch(|| run(chunk)) {
-                    Ok(r) => {
-                        if r != reference {
-                            big.violation(format!("{}:short-write:large-shape-differs", ty.name()), || cj.clone(), || format!("destination accepting <= {} bytes per call: files differ from the unrestricted run ({:?} vs {:?} .shp bytes)", chunk, r.as_ref().map(|x| x.0.len()), reference.as_ref().map(|x| x.0.len())));
-                        }
-                    }
-                    Err(p) => big.violation(format!("{}:{}", ty.name(), p.sig()), || cj.clone(), || p.msg.clone()),
+                for (sig, d) in big_verdicts(ty, n, chunk) {
+                    big.violation(sig, || cj.clone(), || d);
                 }
             }
         }
@@ -730,6 +742,9 @@ pub fn check(tier: Tier) -> i32 {
 }
 
 pub fn replay(v: &Value) -> Vec<(String, String)> {
+    if let (Some(n), Some(chunk), Some(ty)) = (v.get("points_in_part").and_then(|x| x.as_u64()), v.get("chunk").and_then(|x| x.as_u64()), v.get("ty").and_then(|x| x.as_str()).and_then(Ty::from_name)) {
+        return big_verdicts(ty, n as usize, chunk as usize);
+    }
     match Case::from_json(v) {
         None => vec![("bad-replay-file".into(), "cannot parse case".into())],
         Some(case) => {
